@@ -35,6 +35,9 @@ type ServerCfg struct {
 	HasParams   bool              `json:"hasparams,omitempty"` // configure GlobalParameters even when empty
 	Version     string            `json:"version,omitempty"`
 	TLS         string            `json:"tls,omitempty"` // "" | empty | certs
+	// UserCaches: statement and portal caches are supplied through the
+	// Statements / Portals options (user types embedding the default caches)
+	UserCaches bool `json:"user_caches,omitempty"`
 	// TLSVia: how the configuration reaches the server: "" = the TLSConfig option,
 	// "field" = the exported Server.TLSConfig field assigned after NewServer,
 	// "late-cert" = the option with a config whose certificate is added afterwards
@@ -116,6 +119,8 @@ func (cc *ConnCase) CompletedBefore() []int {
 // call, Bytes accepted before failing), write-err-transient (that one write
 // fails, later ones succeed), empty-read (At = Read call that returns 0,nil),
 // write-stall (E2: the At-th Write never completes: the peer stopped reading),
+// close-err (the server's Close of the connection reports an error; the
+// connection is closed all the same),
 // write-slow (the peer stalls for Ms simulated milliseconds inside the At-th
 // Write and then resumes; if the server armed a write deadline that expires
 // meanwhile, Bytes bytes are accepted and the write fails with a timeout).
